@@ -269,6 +269,50 @@ func ruleR15c(c *Check) {
 	if len(reruns) == 0 {
 		bad = "a dependency whose outputs cannot be loaded is never re-run"
 	}
+	// a dependency whose restore failed is re-run: after a failed lookup/restore no return is reachable
+	// without passing a site that leads to the executing method (the recursive load or the re-run itself)
+	{
+		lo2 := c.P.Func("output", "Registry", "LoadOutputs")
+		tc2 := c.P.Func("caching", "TargetResultCache", "Load")
+		statTo := func(fn *ssa.Function) func(ssa.CallInstruction) bool {
+			return func(s ssa.CallInstruction) bool {
+				for _, cal := range c.G.CalleesOf(s) {
+					if cal == fn {
+						return true
+					}
+				}
+				return false
+			}
+		}
+		var restores []ssa.CallInstruction
+		if lo2 != nil {
+			r, _ := liftedSites(c, ldo, statTo(lo2), 0)
+			restores = append(restores, r...)
+		}
+		if tc2 != nil {
+			r, _ := liftedSites(c, ldo, statTo(tc2), 0)
+			restores = append(restores, r...)
+		}
+		isRerun := func(in ssa.Instruction) bool {
+			for _, r := range reruns {
+				if in == ssa.Instruction(r) {
+					return true
+				}
+			}
+			return false
+		}
+		isRet := func(in ssa.Instruction) bool { _, r := in.(*ssa.Return); return r && in.Parent() == ldo }
+		lost := ""
+		for _, rs := range restores {
+			if isRerun(rs) {
+				continue
+			}
+			if r, at := engine.PathExists(ldo, rs, isRet, engine.PathQuery{CutEdge: engine.NilErrEdgesOf(restores...), CutInstr: isRerun}); r {
+				lost = "after a failed restore of a dependency (" + c.P.InstrPos(rs) + ") the loader can return (" + c.P.InstrPos(at) + ") without re-running it: with load_outputs=all the same failure makes the gate fall through to execution, so the two modes diverge (minimal fails or skips where all rebuilds)"
+			}
+		}
+		c.Require(lost == "" && len(restores) > 0, "R15c", "failed-restore-leads-to-rerun/"+fname, "every failed lookup/restore of a dependency leads to the recursive load and the re-run before the loader returns", lost, c.P.Pos(ldo.Pos()))
+	}
 	c.Require(bad == "", "R15c", "rerun-after-recursive-load/"+fname, "every re-run of a dependency is dominated by a successful recursive load of that dependency's dependencies", bad, c.P.Pos(ldo.Pos()))
 }
 
